@@ -93,6 +93,58 @@ def drift():
     return sorted(set(changed))
 
 
+MAP = os.path.join(VERIF, "modelmap.json")
+
+
+def lean_defs():
+    """fully qualified names of the definitions of the Impl-model (Toodee/Impl, Toodee/Base)"""
+    names = set()
+    for sub in ("Impl", "Base"):
+        d = os.path.join(VERIF, "lean", "Toodee", sub)
+        for f in sorted(os.listdir(d)):
+            if not f.endswith(".lean"):
+                continue
+            ns = []
+            for line in open(os.path.join(d, f)):
+                m = re.match(r"\s*namespace\s+([A-Za-z0-9_.]+)", line)
+                if m:
+                    ns.append(m.group(1)); continue
+                m = re.match(r"\s*end\s+([A-Za-z0-9_.]+)\s*$", line)
+                if m and ns and ns[-1] == m.group(1):
+                    ns.pop(); continue
+                m = re.match(r"\s*(?:private\s+|protected\s+)?(?:def|abbrev|structure|inductive)\s+([A-Za-z0-9_.']+)", line)
+                if m:
+                    names.add(".".join(ns + [m.group(1)]))
+    return names
+
+
+def map_problems():
+    """consistency of modelmap.json (which Rust function is modelled by which Lean definition) with the two trees:
+    every current Rust function has an entry, no entry is orphaned, every Lean name exists"""
+    if not os.path.exists(MAP):
+        return ["modelmap.json missing"]
+    fs = json.load(open(MAP))["functions"]
+    cur = fingerprint()
+    defs = lean_defs()
+    out = [f"unmapped Rust function {k}" for k in cur if k not in fs]
+    out += [f"map entry without Rust function {k}" for k in fs if k not in cur]
+    for k, e in fs.items():
+        for n in e.get("lean", []):
+            if n not in defs:
+                out.append(f"{k}: Lean definition {n} not found")
+        if e.get("status") == "modelled" and not e.get("lean"):
+            out.append(f"{k}: status modelled but no Lean definition listed")
+    return out
+
+
+def modelled_by(key):
+    """Lean definitions that model the Rust function `file::fn#k` (for the drift report)"""
+    try:
+        return json.load(open(MAP))["functions"].get(key, {}).get("lean", [])
+    except Exception:
+        return []
+
+
 def drift_for(files):
     """drifted functions that live in one of the given source files (e.g. a property's anchors.files)"""
     fs = tuple(f + "::" for f in files)
@@ -104,6 +156,19 @@ if __name__ == "__main__":
         json.dump({"_comment": "fingerprints of the Rust functions the Lean model was last reconciled with (anchors.py --update)",
                    "functions": fingerprint()}, open(STORE, "w"), indent=0, sort_keys=True)
         print("recorded", len(fingerprint()), "functions")
+    elif "--map-check" in sys.argv:
+        pr = map_problems()
+        print("\n".join(pr) if pr else "modelmap.json consistent with /repo/src and lean/Toodee/{Impl,Base}")
+        sys.exit(1 if pr else 0)
+    elif "--map-table" in sys.argv:
+        fs = json.load(open(MAP))["functions"]
+        print("| Rust function (file, lines) | status | Lean definition(s) |")
+        print("|---|---|---|")
+        for k in sorted(fs, key=lambda k: (k.split("::")[0], int(fs[k]["lines"].split("-")[0]))):
+            e = fs[k]
+            lean = ", ".join("`" + n.replace("Toodee.", "") + "`" for n in e["lean"]) or "–"
+            note = "" if e["status"] == "modelled" else " — " + e["note"].split(";")[0][:110]
+            print(f"| `{k.split('::')[0]}:{e['lines']}` {e['rust']} | {e['status']}{note} | {lean} |")
     else:
         d = drift()
-        print("\n".join(d) if d else "no drift")
+        print("\n".join(f"{k}  (modelled by {', '.join(modelled_by(k)) or '-'})" for k in d) if d else "no drift")
